@@ -223,8 +223,24 @@ def anSt (s : H) (node : NRef) (k : Int) : H :=
   let s4 : H := { s3 with _id_to_node := dictSet s3._id_to_node (optIntGet (s3.n node).id) node }
   { s4 with _full_name_to_node := dictSet s4._full_name_to_node (node_full_name s4 node) node }
 
+/-- the guard at the head of `add_node` (b653290): `node.id is not None and self._id_to_node.get(node.id) is node`
+— the object is already part of the graph -/
+def nodeIsPart (s : H) (node : NRef) : Bool :=
+  (s.n node).id.isSome && (dictGet s._id_to_node (optIntGet (s.n node).id) == some node)
+
+theorem nodeIsPart_iff (s : H) (node : NRef) :
+    nodeIsPart s node = true ↔ ∃ k, (s.n node).id = some k ∧ dictGet s._id_to_node k = some node := by
+  unfold nodeIsPart
+  cases h : (s.n node).id with
+  | none => simp
+  | some k => simp [optIntGet]
+
+theorem nodeIsPart_of_id_none (s : H) (node : NRef) (h : (s.n node).id = none) : nodeIsPart s node = false := by
+  unfold nodeIsPart; rw [h]; rfl
+
 theorem graph_add_node_eq (s : H) (node : NRef) (nid : Option Int) :
     graph_add_node s node nid =
+      if nodeIsPart s node = true then .error .valueError else
       if dictIn s._id_to_node (anKey s nid) = true then .error .valueError else .ok (anSt s node (anKey s nid)) := rfl
 
 theorem absS_anSt (s : H) (node : NRef) (k : Int) (af : Nat) :
@@ -258,6 +274,8 @@ theorem add_node_tie (s s' : H) (node : NRef) (nid : Option Int) (af : Nat)
   rw [graph_add_node_eq] at h
   split at h
   · cases h
+  split at h
+  · cases h
   · rename_i hd
     injection h with h
     subst h
@@ -265,17 +283,124 @@ theorem add_node_tie (s s' : H) (node : NRef) (nid : Option Int) (af : Nat)
     rw [dictIn_eq_dget, anKey_eq] at hd
     exact if_neg hd
 
+/-- `add_node` raises only `ValueError`: for an object that is already part of the graph (the guard of b653290;
+never for a freshly constructed node, whose `id` is `None`: `nodeIsPart_of_id_none`), or — like `addNode` — for
+an id in use -/
 theorem add_node_error (s : H) (node : NRef) (nid : Option Int) (af : Nat) (e : PyErr)
     (h : graph_add_node s node nid = .error e) :
-    e = .valueError ∧ addNode (absS s node af) (absN (s.n node)) nid = .error .valueError := by
+    e = .valueError ∧
+      (nodeIsPart s node = true ∨ addNode (absS s node af) (absN (s.n node)) nid = .error .valueError) := by
   rw [graph_add_node_eq] at h
+  split at h
+  · rename_i hp
+    injection h with h
+    exact ⟨h.symm, Or.inl hp⟩
   split at h
   · rename_i hd
     injection h with h
-    refine ⟨h.symm, addNode_error_of_used _ _ _ ?_⟩
+    refine ⟨h.symm, Or.inr (addNode_error_of_used _ _ _ ?_)⟩
     rw [dictIn_eq_dget, anKey_eq] at hd
     exact hd
   · cases h
+
+/-- … for a freshly constructed node object the exception is the model's -/
+theorem add_node_error_fresh (s : H) (node : NRef) (nid : Option Int) (af : Nat) (e : PyErr)
+    (hid : (s.n node).id = none) (h : graph_add_node s node nid = .error e) :
+    e = .valueError ∧ addNode (absS s node af) (absN (s.n node)) nid = .error .valueError := by
+  obtain ⟨he, h⟩ := add_node_error s node nid af e h
+  rcases h with h | h
+  · rw [nodeIsPart_of_id_none s node hid] at h; cases h
+  · exact ⟨he, h⟩
+
+/-- the reference that the model will allocate next is not part of a consistent graph: the guard does not fire -/
+theorem nodeIsPart_fresh (s : H) (node : NRef) (af : Nat) (hc : Consistent (absS s node af)) :
+    nodeIsPart s node = false := by
+  cases h : nodeIsPart s node with
+  | false => rfl
+  | true =>
+    obtain ⟨k, _, hk⟩ := (nodeIsPart_iff s node).1 h
+    rw [dictGet_eq_dget] at hk
+    have hm : node ∈ s.nodes := ((hc.idx.id_exact k node).1 hk).1
+    exact absurd (hc.nodes.fresh node hm) (Nat.lt_irrefl _)
+
+/-- a node of a consistent graph (whose `id` is set) is recognised by the guard -/
+theorem nodeIsPart_member (s : H) (node : NRef) (nf af : Nat) (hc : Consistent (absS s nf af))
+    (hm : node ∈ s.nodes) (hid : (s.n node).id.isSome = true) : nodeIsPart s node = true := by
+  obtain ⟨k, hk⟩ := Option.isSome_iff_exists.1 hid
+  refine (nodeIsPart_iff s node).2 ⟨k, hk, ?_⟩
+  rw [dictGet_eq_dget]
+  refine (hc.idx.id_exact k node).2 ⟨hm, ?_⟩
+  show (s.n node).id.getD 0 = k
+  rw [hk]; rfl
+
+/-- an object that is already part of the graph is rejected, whatever id is asked for -/
+theorem add_node_rejects_part (s : H) (node : NRef) (nid : Option Int) (h : nodeIsPart s node = true) :
+    graph_add_node s node nid = .error .valueError := by
+  rw [graph_add_node_eq, if_pos h]
+
+namespace TG
+
+theorem absS_anSt_obj (s : H) (node : NRef) (k : Int) (nf af : Nat) :
+    absS (anSt s node k) nf af =
+      { absS s nf af with
+        nobj := fun x => if x = node then { absN (s.n node) with id := k } else absN (s.n x)
+        nextNode := max (k + 1) s.next_node_id
+        nodes := s.nodes ++ [node]
+        idIdx := dset s._id_to_node k node
+        nameIdx := dset s._full_name_to_node (fullName { absN (s.n node) with id := k }) node } := by
+  have hn : ∀ x, (anSt s node k).n x = if x = node then { s.n node with id := some k } else s.n x := fun _ => rfl
+  have hid : optIntGet ((anSt s node k).n node).id = k := by rw [hn, if_pos rfl]; rfl
+  have hfn : node_full_name (anSt s node k) node = fullName { absN (s.n node) with id := k } := by
+    rw [full_name_tie _ _ (by intro _; rw [hn, if_pos rfl]; rfl), hn, if_pos rfl]; rfl
+  unfold absS
+  simp only
+  congr 1
+  · funext x
+    rw [hn]
+    by_cases hx : x = node
+    · rw [if_pos hx, if_pos hx]; rfl
+    · rw [if_neg hx, if_neg hx]
+  · show dictSet s._id_to_node (optIntGet ((anSt s node k).n node).id) node = _
+    rw [hid, dictSet_eq_dset]
+  · show dictSet s._full_name_to_node (node_full_name _ node) node = _
+    rw [dictSet_eq_dset]
+    congr 1
+  · show max (optIntGet ((anSt s node k).n node).id + 1) s.next_node_id = _
+    rw [hid]
+
+theorem nodeIsPart_abs (s : H) (node : NRef) (nf af : Nat) (hid : (s.n node).id.isSome = true) :
+    (nodeIsPart s node = true) ↔ dget (absS s nf af).idIdx ((absS s nf af).nobj node).id = some node := by
+  obtain ⟨k, hk⟩ := Option.isSome_iff_exists.1 hid
+  rw [nodeIsPart_iff]
+  show _ ↔ dget s._id_to_node ((s.n node).id.getD 0) = some node
+  rw [hk, ← dictGet_eq_dget]
+  constructor
+  · rintro ⟨k', h1, h2⟩; cases h1; exact h2
+  · intro h; exact ⟨k, rfl, h⟩
+
+end TG
+/-- `add_node(node, node_id)` for a node object that has been given an id before (e.g. the object handed to
+`add_node` a second time) is `AGS.addNodeObj`: the same calls are rejected, the others have the same effect -/
+theorem add_node_obj_tie (s : H) (node : NRef) (nid : Option Int) (nf af : Nat) (hid : (s.n node).id.isSome = true) :
+    (∀ s', graph_add_node s node nid = .ok s' → addNodeObj (absS s nf af) node nid = .ok (absS s' nf af)) ∧
+    (∀ e, graph_add_node s node nid = .error e →
+      e = .valueError ∧ addNodeObj (absS s nf af) node nid = .error .valueError) := by
+  have hp := nodeIsPart_abs s node nf af hid
+  rw [graph_add_node_eq, addNodeObj_eq]
+  by_cases h1 : nodeIsPart s node = true
+  · rw [if_pos h1, if_pos (hp.1 h1)]
+    exact ⟨fun _ h => (by cases h), fun e h => (by cases h; exact ⟨rfl, rfl⟩)⟩
+  · rw [if_neg h1, if_neg (fun h => h1 (hp.2 h))]
+    have hk : nid.getD (absS s nf af).nextNode = anKey s nid := (anKey_eq s nid).symm
+    rw [hk]
+    by_cases h2 : dictIn s._id_to_node (anKey s nid) = true
+    · rw [if_pos h2, if_pos (by rw [← dictIn_eq_dget]; exact h2)]
+      exact ⟨fun _ h => (by cases h), fun e h => (by cases h; exact ⟨rfl, rfl⟩)⟩
+    · rw [if_neg h2, if_neg (by rw [← dictIn_eq_dget]; exact h2)]
+      refine ⟨fun s' h => ?_, fun e h => (by cases h)⟩
+      cases h
+      rw [absS_anSt_obj]
+      rfl
 namespace TG
 
 /-! ## `remove_node` -/
@@ -684,118 +809,233 @@ def aaS0 (s : H) (a : ARef) (k : Int) : H := s.setA a { s.a a with id := some k 
 def aaS1 (s : H) (a : ARef) (k : Int) : H :=
   { aaS0 s a k with next_attacker_id := max (optIntGet ((aaS0 s a k).a a).id + 1) (aaS0 s a k).next_attacker_id }
 
-/-- the state of the two loops: the heap and the local variable `node` -/
-abbrev AASt := H × Option NRef
-
-def aaR (a : ARef) (st : AASt) (i : Int) : Except PyErr AASt :=
-  match graph_get_node_by_id st.1 i with
-  | some v => .ok (attacker_compromise st.1 a v, graph_get_node_by_id st.1 i)
-  | none => .error .attackGraphException
-def aaE (a : ARef) (st : AASt) (i : Int) : Except PyErr AASt :=
-  match graph_get_node_by_id st.1 i with
-  | some v => .ok (st.1.setA a { st.1.a a with entry_points := (st.1.a a).entry_points ++ [v] },
-      graph_get_node_by_id st.1 i)
-  | none => .error .attackGraphException
-def aaR' (a : ARef) (i : Int) (st : AASt) : Except PyErr (ForInStep AASt) :=
-  match graph_get_node_by_id st.1 i with
-  | some v => Except.pure (ForInStep.yield (attacker_compromise st.1 a v, graph_get_node_by_id st.1 i))
-  | none => .error .attackGraphException
-def aaE' (a : ARef) (i : Int) (st : AASt) : Except PyErr (ForInStep AASt) :=
-  match graph_get_node_by_id st.1 i with
-  | some v => Except.pure (ForInStep.yield
-      (st.1.setA a { st.1.a a with entry_points := (st.1.a a).entry_points ++ [v] }, graph_get_node_by_id st.1 i))
-  | none => .error .attackGraphException
 def aaFin (a : ARef) (s : H) : H :=
   { s with attackers := s.attackers ++ [a], _id_to_attacker := dictSet s._id_to_attacker (optIntGet (s.a a).id) a }
 
+/-- the guard at the head of `add_attacker` (b653290): `attacker.id is not None and
+self._id_to_attacker.get(attacker.id) is attacker` — the object is already part of the graph -/
+def attIsPart (s : H) (a : ARef) : Bool :=
+  (s.a a).id.isSome && (dictGet s._id_to_attacker (optIntGet (s.a a).id) == some a)
+
+theorem attIsPart_iff (s : H) (a : ARef) :
+    attIsPart s a = true ↔ ∃ k, (s.a a).id = some k ∧ dictGet s._id_to_attacker k = some a := by
+  unfold attIsPart
+  cases h : (s.a a).id with
+  | none => simp
+  | some k => simp [optIntGet]
+
+theorem attIsPart_of_id_none (s : H) (a : ARef) (h : (s.a a).id = none) : attIsPart s a = false := by
+  unfold attIsPart; rw [h]; rfl
+
+/-- what the two lookup loops of `add_attacker` (since b507c7f: they only *read* the graph) compute: the nodes the
+ids stand for, in order — or nothing, if some id names no node (`AttackGraphException`) -/
+def aaResolve (s : H) : List Int → Option (List NRef)
+  | [] => some []
+  | i :: l =>
+    match graph_get_node_by_id s i with
+    | some v => (aaResolve s l).map (v :: ·)
+    | none => none
+
+/-- the value of the local variable `node` after such a loop -/
+def aaLast (s : H) (nd : Option NRef) : List Int → Option NRef
+  | [] => nd
+  | i :: l => aaLast s (graph_get_node_by_id s i) l
+
+/-- the bodies of the four loops: two lookups (states: `(reached_nodes, node)` / `(node, entry_point_nodes)`), two
+updates of the heap -/
+def aaRes1 (s : H) (i : Int) (st : List NRef × Option NRef) : Except PyErr (ForInStep (List NRef × Option NRef)) :=
+  match graph_get_node_by_id s i with
+  | some v => Except.pure (ForInStep.yield (st.1 ++ [v], graph_get_node_by_id s i))
+  | none => .error .attackGraphException
+def aaRes2 (s : H) (i : Int) (st : Option NRef × List NRef) : Except PyErr (ForInStep (Option NRef × List NRef)) :=
+  match graph_get_node_by_id s i with
+  | some v => Except.pure (ForInStep.yield (graph_get_node_by_id s i, st.2 ++ [v]))
+  | none => .error .attackGraphException
+def aaComp (a : ARef) (s : H) (n : NRef) : H := attacker_compromise s a n
+def aaPush (a : ARef) (s : H) (n : NRef) : H :=
+  s.setA a { s.a a with entry_points := (s.a a).entry_points ++ [n] }
+
+/-- the heap after a successful `add_attacker` that has found the nodes `rn` (reached) and `en` (entry points) -/
+def aaApply (s : H) (a : ARef) (k : Int) (rn en : List NRef) : H :=
+  aaFin a (en.foldl (aaPush a) (rn.foldl (aaComp a) (aaS1 s a k)))
+
 theorem graph_add_attacker_eq' (s : H) (a : ARef) (aid : Option Int) (e re : List Int) :
     graph_add_attacker s a aid e re =
-      if dictIn (aaS0 s a (aaKey s aid))._id_to_attacker (optIntGet ((aaS0 s a (aaKey s aid)).a a).id) = true then
-        .error .valueError else
-      (forIn re ((aaS1 s a (aaKey s aid), none) : AASt) (aaR' a)).bind fun st =>
-      (forIn e st (aaE' a)).bind fun st => .ok (aaFin a st.1) := rfl
+      if attIsPart s a = true then .error .valueError else
+      if dictIn s._id_to_attacker (aaKey s aid) = true then .error .valueError else
+      (forIn re (([], none) : List NRef × Option NRef) (aaRes1 s)).bind fun st1 =>
+      (forIn e ((st1.2, []) : Option NRef × List NRef) (aaRes2 s)).bind fun st2 =>
+      (forIn st1.1 (aaS1 s a (aaKey s aid)) (fun n t => Except.pure (ForInStep.yield (aaComp a t n)))).bind fun s2 =>
+      (forIn st2.2 s2 (fun n t => Except.pure (ForInStep.yield (aaPush a t n)))).bind fun s3 =>
+      .ok (aaFin a s3) := rfl
 
-theorem aaR'_eq (a : ARef) : aaR' a = fun i st => (aaR a st i).bind (fun s' => Except.pure (ForInStep.yield s')) := by
-  funext i st; unfold aaR' aaR
-  cases graph_get_node_by_id st.1 i <;> rfl
-theorem aaE'_eq (a : ARef) : aaE' a = fun i st => (aaE a st i).bind (fun s' => Except.pure (ForInStep.yield s')) := by
-  funext i st; unfold aaE' aaE
-  cases graph_get_node_by_id st.1 i <;> rfl
+theorem forIn_aaRes1 (s : H) (l : List Int) (acc : List NRef) (nd : Option NRef) :
+    forIn l (acc, nd) (aaRes1 s) =
+      match aaResolve s l with
+      | some r => Except.ok (acc ++ r, aaLast s nd l)
+      | none => Except.error .attackGraphException := by
+  induction l generalizing acc nd with
+  | nil => simp [aaResolve, aaLast]; rfl
+  | cons i l ih =>
+    rw [List.forIn_cons]
+    unfold aaRes1 aaResolve aaLast
+    cases hg : graph_get_node_by_id s i with
+    | none => rfl
+    | some v =>
+      show forIn l (acc ++ [v], some v) (aaRes1 s) = _
+      rw [ih]
+      cases aaResolve s l with
+      | none => rfl
+      | some r => simp
 
+theorem forIn_aaRes2 (s : H) (l : List Int) (acc : List NRef) (nd : Option NRef) :
+    forIn l (nd, acc) (aaRes2 s) =
+      match aaResolve s l with
+      | some r => Except.ok (aaLast s nd l, acc ++ r)
+      | none => Except.error .attackGraphException := by
+  induction l generalizing acc nd with
+  | nil => simp [aaResolve, aaLast]; rfl
+  | cons i l ih =>
+    rw [List.forIn_cons]
+    unfold aaRes2 aaResolve aaLast
+    cases hg : graph_get_node_by_id s i with
+    | none => rfl
+    | some v =>
+      show forIn l (some v, acc ++ [v]) (aaRes2 s) = _
+      rw [ih]
+      cases aaResolve s l with
+      | none => rfl
+      | some r => simp
+
+/-- a `for` loop of the translated code whose body neither raises nor leaves the loop is a fold -/
+theorem forIn_pure_foldl {α σ : Type} (g : σ → α → σ) (l : List α) (s : σ) :
+    forIn l s (fun x t => (Except.pure (ForInStep.yield (g t x)) : Except PyErr _)) = .ok (l.foldl g s) := by
+  induction l generalizing s with
+  | nil => rfl
+  | cons x l ih => rw [List.forIn_cons]; exact ih _
+
+/-- `add_attacker` (since b507c7f): every `raise` is decided by the heap the call starts with — object already
+part of the graph, id in use, an id that names no node —, and only if there is none the heap is written -/
 theorem graph_add_attacker_eq (s : H) (a : ARef) (aid : Option Int) (e re : List Int) :
     graph_add_attacker s a aid e re =
+      if attIsPart s a = true then .error .valueError else
       if dictIn s._id_to_attacker (aaKey s aid) = true then .error .valueError else
-      (loopE (aaR a) re ((aaS1 s a (aaKey s aid), none) : AASt)).bind fun st =>
-      (loopE (aaE a) e st).bind fun st => .ok (aaFin a st.1) := by
-  rw [graph_add_attacker_eq', aaR'_eq, aaE'_eq]
-  have : optIntGet ((aaS0 s a (aaKey s aid)).a a).id = aaKey s aid := by
-    show optIntGet (if a = a then _ else _ : PyAttacker).id = _
-    rw [if_pos rfl]; rfl
-  rw [this]; rfl
+      match aaResolve s re with
+      | none => .error .attackGraphException
+      | some rn =>
+        match aaResolve s e with
+        | none => .error .attackGraphException
+        | some en => .ok (aaApply s a (aaKey s aid) rn en) := by
+  rw [graph_add_attacker_eq']
+  split
+  · rfl
+  split
+  · rfl
+  rw [forIn_aaRes1]
+  cases aaResolve s re with
+  | none => rfl
+  | some rn =>
+    show (forIn e ((aaLast s none re, []) : Option NRef × List NRef) (aaRes2 s)).bind _ = _
+    rw [forIn_aaRes2]
+    cases aaResolve s e with
+    | none => rfl
+    | some en =>
+      dsimp only [List.nil_append]
+      rw [forIn_pure_foldl (aaComp a)]
+      dsimp only [Except.bind]
+      rw [forIn_pure_foldl (aaPush a)]
+      rfl
 
-section aaTies
-variable (a : ARef) (nf af : Nat)
+theorem aaResolve_eq_none (s : H) (l : List Int) :
+    aaResolve s l = none ↔ ∃ i ∈ l, graph_get_node_by_id s i = none := by
+  induction l with
+  | nil => simp [aaResolve]
+  | cons i l ih =>
+    unfold aaResolve
+    cases hg : graph_get_node_by_id s i with
+    | none => simp [hg]
+    | some v => simp [hg, ih]
 
-theorem aaR_tie (st : AASt) (i : Int) (st' : AASt) (h : aaR a st i = .ok st') :
-    absS st'.1 nf af = aaReach a (absS st.1 nf af) i := by
-  unfold aaR at h
-  unfold aaReach
-  rw [← get_node_by_id_tie st.1 i nf af]
-  cases hg : graph_get_node_by_id st.1 i with
-  | none => rw [hg] at h; cases h
-  | some v => rw [hg] at h; cases h; exact compromise_tie st.1 a v nf af
+theorem aaResolve_all (s : H) (l : List Int) (nf af : Nat) :
+    (aaResolve s l).isSome = l.all (fun i => (getNodeById (absS s nf af) i).isSome) := by
+  induction l with
+  | nil => rfl
+  | cons i l ih =>
+    unfold aaResolve
+    rw [List.all_cons, ← get_node_by_id_tie s i nf af, ← ih]
+    cases graph_get_node_by_id s i with
+    | none => rfl
+    | some v => simp
 
-theorem aaE_tie (st : AASt) (i : Int) (st' : AASt) (h : aaE a st i = .ok st') :
-    absS st'.1 nf af = aaEntry a (absS st.1 nf af) i := by
-  unfold aaE at h
-  unfold aaEntry
-  rw [← get_node_by_id_tie st.1 i nf af]
-  cases hg : graph_get_node_by_id st.1 i with
-  | none => rw [hg] at h; cases h
-  | some v => rw [hg] at h; cases h; exact absS_setA st.1 a _ _ nf af rfl
-
-theorem aaR_all (st : AASt) (i : Int) (st' : AASt) (h : aaR a st i = .ok st') :
-    (dget st.1._id_to_node i).isSome = true ∧ st'.1._id_to_node = st.1._id_to_node := by
-  refine ⟨?_, ?_⟩
-  · rw [← dictGet_eq_dget]
-    unfold aaR at h
-    cases hg : graph_get_node_by_id st.1 i with
+/-- the model looks every id up again while it folds over the id lists; the lookups are those of the initial
+heap, because neither `compromise` nor the entry-point update touches the id index -/
+theorem foldl_aaReach_resolve (a : Nat) (s : H) (l : List Int) (rn : List NRef)
+    (h : aaResolve s l = some rn) (t : St) (ht : t.idIdx = s._id_to_node) :
+    l.foldl (aaReach a) t = rn.foldl (fun t n => compromise t a n) t := by
+  induction l generalizing rn t with
+  | nil => cases h; rfl
+  | cons i l ih =>
+    unfold aaResolve at h
+    cases hg : graph_get_node_by_id s i with
     | none => rw [hg] at h; cases h
-    | some v => exact (congrArg Option.isSome hg :)
-  · have := congrArg St.idIdx (aaR_tie a 0 0 st i st' h)
-    rw [(aaReach_frame a _ i).idIdx] at this
-    exact this
+    | some v =>
+      rw [hg] at h
+      cases hr : aaResolve s l with
+      | none => rw [hr] at h; cases h
+      | some r =>
+        rw [hr] at h; cases h
+        have hl : getNodeById t i = some v := by
+          unfold getNodeById; rw [ht, ← dictGet_eq_dget]; exact hg
+        rw [List.foldl_cons, List.foldl_cons]
+        have : aaReach a t i = compromise t a v := by unfold aaReach; rw [hl]
+        rw [this]
+        exact ih r hr _ (by rw [(compromise_frame t a v).idIdx]; exact ht)
 
-theorem aaE_all (st : AASt) (i : Int) (st' : AASt) (h : aaE a st i = .ok st') :
-    (dget st.1._id_to_node i).isSome = true ∧ st'.1._id_to_node = st.1._id_to_node := by
-  refine ⟨?_, ?_⟩
-  · rw [← dictGet_eq_dget]
-    unfold aaE at h
-    cases hg : graph_get_node_by_id st.1 i with
+theorem foldl_aaEntry_resolve (a : Nat) (s : H) (l : List Int) (en : List NRef)
+    (h : aaResolve s l = some en) (t : St) (ht : t.idIdx = s._id_to_node) :
+    l.foldl (aaEntry a) t = en.foldl (fun t n => updA t a (fun o => { o with entry := o.entry ++ [n] })) t := by
+  induction l generalizing en t with
+  | nil => cases h; rfl
+  | cons i l ih =>
+    unfold aaResolve at h
+    cases hg : graph_get_node_by_id s i with
     | none => rw [hg] at h; cases h
-    | some v => exact (congrArg Option.isSome hg :)
-  · have := congrArg St.idIdx (aaE_tie a 0 0 st i st' h)
-    rw [(aaEntry_frame a _ i).idIdx] at this
-    exact this
+    | some v =>
+      rw [hg] at h
+      cases hr : aaResolve s l with
+      | none => rw [hr] at h; cases h
+      | some r =>
+        rw [hr] at h; cases h
+        have hl : getNodeById t i = some v := by
+          unfold getNodeById; rw [ht, ← dictGet_eq_dget]; exact hg
+        rw [List.foldl_cons, List.foldl_cons]
+        have : aaEntry a t i = updA t a (fun o => { o with entry := o.entry ++ [v] }) := by unfold aaEntry; rw [hl]
+        rw [this]
+        exact ih r hr _ (by rw [(Frame.updA t a _).idIdx]; exact ht)
 
-end aaTies
+theorem compromise_aid (s : H) (a : ARef) (n : NRef) (b : ARef) : ((attacker_compromise s a n).a b).id = (s.a b).id := by
+  rw [compromise_eq]
+  split
+  · rfl
+  · show (if b = a then _ else _ : PyAttacker).id = _
+    by_cases hb : b = a
+    · subst hb; rw [if_pos rfl]
+    · rw [if_neg hb]; rfl
 
-theorem loopE_all {f : AASt → Int → Except PyErr AASt}
-    (hf : ∀ st i st', f st i = .ok st' →
-      (dget st.1._id_to_node i).isSome = true ∧ st'.1._id_to_node = st.1._id_to_node)
-    (l : List Int) (st st' : AASt) (h : loopE f l st = .ok st') :
-    (∀ i ∈ l, (dget st.1._id_to_node i).isSome = true) ∧ st'.1._id_to_node = st.1._id_to_node := by
-  induction l generalizing st with
-  | nil => rw [loopE_nil] at h; cases h; exact ⟨fun _ hi => (by cases hi), rfl⟩
-  | cons x l ih =>
-    rw [loopE_cons] at h
-    obtain ⟨st1, h1, h2⟩ := bind_ok h
-    obtain ⟨c1, f1⟩ := hf st x st1 h1
-    obtain ⟨c2, f2⟩ := ih st1 h2
-    refine ⟨fun i hi => ?_, f2.trans f1⟩
-    rcases List.mem_cons.1 hi with e | hi
-    · rw [e]; exact c1
-    · rw [← f1]; exact c2 i hi
+theorem absS_foldl_aaComp (a : ARef) (nf af : Nat) (rn : List NRef) (s : H) :
+    absS (rn.foldl (aaComp a) s) nf af = rn.foldl (fun t n => compromise t a n) (absS s nf af) := by
+  induction rn generalizing s with
+  | nil => rfl
+  | cons n rn ih => rw [List.foldl_cons, List.foldl_cons, ih]; unfold aaComp; rw [compromise_tie]
+
+theorem absS_foldl_aaPush (a : ARef) (nf af : Nat) (en : List NRef) (s : H) :
+    absS (en.foldl (aaPush a) s) nf af =
+      en.foldl (fun t n => updA t a (fun o => { o with entry := o.entry ++ [n] })) (absS s nf af) := by
+  induction en generalizing s with
+  | nil => rfl
+  | cons n en ih =>
+    rw [List.foldl_cons, List.foldl_cons, ih]; unfold aaPush
+    rw [absS_setA s a _ (fun o => { o with entry := o.entry ++ [n] }) nf af rfl]
 
 theorem aaReach_aid (a : Nat) (t : St) (i : Int) (b : Nat) : ((aaReach a t i).aobj b).id = (t.aobj b).id := by
   unfold aaReach; split
@@ -827,6 +1067,34 @@ theorem absS_aaS1 (s : H) (a : ARef) (k : Int) (nf : Nat)
       rw [if_pos rfl]
     rw [this]; rfl
 
+/-- the abstraction of the heap after a successful `add_attacker` on a freshly constructed attacker -/
+theorem absS_aaApply (s : H) (a : ARef) (aid : Option Int) (entry reached : List Int) (rn en : List NRef) (nf : Nat)
+    (hfresh : (s.a a).entry_points = [] ∧ (s.a a).reached_attack_steps = [])
+    (hr : aaResolve s reached = some rn) (he : aaResolve s entry = some en) :
+    absS (aaApply s a (aaKey s aid) rn en) nf (a + 1) =
+      (let s2 := entry.foldl (aaEntry a) (reached.foldl (aaReach a) (aaPre (absS s nf a) (s.a a).name (aaKey s aid)))
+       withAtt s2 (s2.attackers ++ [a]) (dset s2.attIdx (aaKey s aid) a)) := by
+  have h0 : (aaPre (absS s nf a) (s.a a).name (aaKey s aid)).idIdx = s._id_to_node := rfl
+  have e1 := foldl_aaReach_resolve a s reached rn hr _ h0
+  have h1 : (reached.foldl (aaReach a) (aaPre (absS s nf a) (s.a a).name (aaKey s aid))).idIdx = s._id_to_node :=
+    foldl_inv (fun t : St => t.idIdx = s._id_to_node) _ _ _ (fun t i _ ht => by rw [(aaReach_frame a t i).idIdx, ht]) h0
+  have e2 := foldl_aaEntry_resolve a s entry en he _ h1
+  have hid : ((List.foldl (aaEntry a) (List.foldl (aaReach a) (aaPre (absS s nf a) (s.a a).name (aaKey s aid)) reached)
+      entry).aobj a).id = aaKey s aid := by
+    refine foldl_inv (fun t : St => (t.aobj a).id = aaKey s aid) _ _ _ (fun t i _ ht => by rw [aaEntry_aid, ht]) ?_
+    refine foldl_inv (fun t : St => (t.aobj a).id = aaKey s aid) _ _ _ (fun t i _ ht => by rw [aaReach_aid, ht]) ?_
+    show (if a = a then _ else _ : AttObj).id = _
+    rw [if_pos rfl]
+  have habs : absS (en.foldl (aaPush a) (rn.foldl (aaComp a) (aaS1 s a (aaKey s aid)))) nf (a + 1) =
+      entry.foldl (aaEntry a) (reached.foldl (aaReach a) (aaPre (absS s nf a) (s.a a).name (aaKey s aid))) := by
+    rw [absS_foldl_aaPush, absS_foldl_aaComp, absS_aaS1 s a _ nf hfresh, e2, e1]
+  have : ∀ t : H, absS (aaFin a t) nf (a + 1) =
+      withAtt (absS t nf (a + 1)) ((absS t nf (a + 1)).attackers ++ [a])
+        (dset (absS t nf (a + 1)).attIdx ((absS t nf (a + 1)).aobj a).id a) := by
+    intro t; unfold aaFin; rw [dictSet_eq_dset]; rfl
+  unfold aaApply
+  rw [this, habs, hid]
+
 end TG
 /-- `add_attacker(attacker, attacker_id, entry_points, reached_attack_steps)` for a freshly constructed
 `Attacker` object (no entry points, nothing reached), allocated at `afresh` -/
@@ -837,43 +1105,231 @@ theorem add_attacker_tie (s s' : H) (a : ARef) (aid : Option Int) (entry reached
   rw [graph_add_attacker_eq] at h
   split at h
   · cases h
-  · rename_i hd
-    obtain ⟨st1, h1, h⟩ := bind_ok h
-    obtain ⟨st2, h2, h⟩ := bind_ok h
-    cases h
-    have t1 := loopE_tie (aaR a) (fun st => absS st.1 nf (a + 1)) (aaReach a) (aaR_tie a nf (a + 1)) reached _ st1 h1
-    have t2 := loopE_tie (aaE a) (fun st => absS st.1 nf (a + 1)) (aaEntry a) (aaE_tie a nf (a + 1)) entry st1 st2 h2
-    simp only at t1 t2
-    rw [t1, absS_aaS1 s a _ nf hfresh] at t2
-    obtain ⟨c1, f1⟩ := loopE_all (aaR_all a) reached _ st1 h1
-    obtain ⟨c2, _⟩ := loopE_all (aaE_all a) entry st1 st2 h2
-    rw [f1] at c2
-    have hk : aid.getD (absS s nf a).nextAtt = aaKey s aid := (aaKey_eq s aid).symm
-    rw [addAttacker_eq, hk]
-    rw [dictIn_eq_dget] at hd
-    have hd' : ¬ (dget (absS s nf a).attIdx (aaKey s aid)).isSome = true := hd
-    have hall : ¬ ((!(reached.all (fun i => (getNodeById (absS s nf a) i).isSome) &&
-        entry.all (fun i => (getNodeById (absS s nf a) i).isSome))) = true) := by
-      have e1 : reached.all (fun i => (getNodeById (absS s nf a) i).isSome) = true :=
-        List.all_eq_true.2 (fun i hi => c1 i hi)
-      have e2 : entry.all (fun i => (getNodeById (absS s nf a) i).isSome) = true :=
-        List.all_eq_true.2 (fun i hi => c2 i hi)
-      rw [e1, e2]; decide
-    rw [if_neg hd', if_neg hall]
-    show Except.ok _ = Except.ok _
-    congr 1
-    have hid : ((List.foldl (aaEntry a) (List.foldl (aaReach a) (aaPre (absS s nf a) (s.a a).name (aaKey s aid)) reached)
-        entry).aobj a).id = aaKey s aid := by
-      refine foldl_inv (fun t : St => (t.aobj a).id = aaKey s aid) _ _ _ (fun t i _ ht => by rw [aaEntry_aid, ht]) ?_
-      refine foldl_inv (fun t : St => (t.aobj a).id = aaKey s aid) _ _ _ (fun t i _ ht => by rw [aaReach_aid, ht]) ?_
-      show (if a = a then _ else _ : AttObj).id = _
+  split at h
+  · cases h
+  rename_i hd
+  cases hr : aaResolve s reached with
+  | none => rw [hr] at h; cases h
+  | some rn =>
+    cases he : aaResolve s entry with
+    | none => rw [hr, he] at h; cases h
+    | some en =>
+      rw [hr, he] at h
+      cases h
+      have hk : aid.getD (absS s nf a).nextAtt = aaKey s aid := (aaKey_eq s aid).symm
+      rw [addAttacker_eq, hk]
+      rw [dictIn_eq_dget] at hd
+      have hd' : ¬ (dget (absS s nf a).attIdx (aaKey s aid)).isSome = true := hd
+      have hall : ¬ ((!(reached.all (fun i => (getNodeById (absS s nf a) i).isSome) &&
+          entry.all (fun i => (getNodeById (absS s nf a) i).isSome))) = true) := by
+        rw [← aaResolve_all, ← aaResolve_all, hr, he]; simp
+      rw [if_neg hd', if_neg hall]
+      exact (congrArg Except.ok (absS_aaApply s a aid entry reached rn en nf hfresh hr he)).symm
+
+/-- what makes `add_attacker` raise, as a condition on the heap the call starts with -/
+def aaRejects (s : H) (a : ARef) (aid : Option Int) (entry reached : List Int) : Prop :=
+  attIsPart s a = true ∨ dictIn s._id_to_attacker (aaKey s aid) = true ∨
+    (∃ i ∈ reached, graph_get_node_by_id s i = none) ∨ (∃ i ∈ entry, graph_get_node_by_id s i = none)
+
+/-- `add_attacker` raises iff the attacker object is already part of the graph, the id is in use, or some id of
+`reached_attack_steps` / `entry_points` names no node — all of it read off the heap *before* the call; otherwise it
+returns the heap `aaApply` (the attacker gets its id, compromises, takes its entry points, is registered) -/
+theorem add_attacker_raises_iff (s : H) (a : ARef) (aid : Option Int) (entry reached : List Int) :
+    (∃ err, graph_add_attacker s a aid entry reached = .error err) ↔ aaRejects s a aid entry reached := by
+  rw [graph_add_attacker_eq]
+  unfold aaRejects
+  by_cases h1 : attIsPart s a = true
+  · rw [if_pos h1]; exact ⟨fun _ => Or.inl h1, fun _ => ⟨_, rfl⟩⟩
+  rw [if_neg h1]
+  by_cases h2 : dictIn s._id_to_attacker (aaKey s aid) = true
+  · rw [if_pos h2]; exact ⟨fun _ => Or.inr (Or.inl h2), fun _ => ⟨_, rfl⟩⟩
+  rw [if_neg h2]
+  cases hr : aaResolve s reached with
+  | none => exact ⟨fun _ => Or.inr (Or.inr (Or.inl ((aaResolve_eq_none s reached).1 hr))), fun _ => ⟨_, rfl⟩⟩
+  | some rn =>
+    cases he : aaResolve s entry with
+    | none => exact ⟨fun _ => Or.inr (Or.inr (Or.inr ((aaResolve_eq_none s entry).1 he))), fun _ => ⟨_, rfl⟩⟩
+    | some en =>
+      refine ⟨fun ⟨_, h⟩ => (by cases h), fun h => ?_⟩
+      rcases h with h | h | h | h
+      · exact absurd h h1
+      · exact absurd h h2
+      · rw [(aaResolve_eq_none s reached).2 h] at hr; cases hr
+      · rw [(aaResolve_eq_none s entry).2 h] at he; cases he
+
+/-- which exception: `ValueError` for an object that is already part / an id in use, otherwise
+`AttackGraphException` -/
+theorem add_attacker_error_kind (s : H) (a : ARef) (aid : Option Int) (entry reached : List Int) (err : PyErr)
+    (h : graph_add_attacker s a aid entry reached = .error err) :
+    (err = .valueError ∧ (attIsPart s a = true ∨ dictIn s._id_to_attacker (aaKey s aid) = true)) ∨
+    (err = .attackGraphException ∧ attIsPart s a = false ∧ dictIn s._id_to_attacker (aaKey s aid) = false ∧
+      ((∃ i ∈ reached, graph_get_node_by_id s i = none) ∨ (∃ i ∈ entry, graph_get_node_by_id s i = none))) := by
+  rw [graph_add_attacker_eq] at h
+  by_cases h1 : attIsPart s a = true
+  · rw [if_pos h1] at h; cases h; exact Or.inl ⟨rfl, Or.inl h1⟩
+  rw [if_neg h1] at h
+  by_cases h2 : dictIn s._id_to_attacker (aaKey s aid) = true
+  · rw [if_pos h2] at h; cases h; exact Or.inl ⟨rfl, Or.inr h2⟩
+  rw [if_neg h2] at h
+  have h1' : attIsPart s a = false := by simpa using h1
+  have h2' : dictIn s._id_to_attacker (aaKey s aid) = false := by simpa using h2
+  cases hr : aaResolve s reached with
+  | none =>
+    rw [hr] at h; cases h
+    exact Or.inr ⟨rfl, h1', h2', Or.inl ((aaResolve_eq_none s reached).1 hr)⟩
+  | some rn =>
+    cases he : aaResolve s entry with
+    | none =>
+      rw [hr, he] at h; cases h
+      exact Or.inr ⟨rfl, h1', h2', Or.inr ((aaResolve_eq_none s entry).1 he)⟩
+    | some en => rw [hr, he] at h; cases h
+
+/-- the exception direction for a freshly constructed attacker (its `id` is `None`): if the translated
+`add_attacker` raises, the model's `addAttacker` rejects with the same kind of exception -/
+theorem add_attacker_error_fresh (s : H) (a : ARef) (aid : Option Int) (entry reached : List Int) (nf : Nat)
+    (err : PyErr) (hid : (s.a a).id = none) (h : graph_add_attacker s a aid entry reached = .error err) :
+    (err = .valueError ∧ addAttacker (absS s nf a) (s.a a).name aid entry reached = .error .valueError) ∨
+    (err = .attackGraphException ∧
+      addAttacker (absS s nf a) (s.a a).name aid entry reached = .error .attackGraphException) := by
+  have hk : aid.getD (absS s nf a).nextAtt = aaKey s aid := (aaKey_eq s aid).symm
+  rw [addAttacker_eq, hk, ← dictIn_eq_dget (κ := Int), ← aaResolve_all, ← aaResolve_all]
+  rcases add_attacker_error_kind s a aid entry reached err h with ⟨he, hp | hd⟩ | ⟨he, _, hd, hu⟩
+  · rw [attIsPart_of_id_none s a hid] at hp; cases hp
+  · exact Or.inl ⟨he, by rw [show (absS s nf a).attIdx = s._id_to_attacker from rfl, if_pos hd]⟩
+  · refine Or.inr ⟨he, ?_⟩
+    rw [show (absS s nf a).attIdx = s._id_to_attacker from rfl, hd]
+    rcases hu with hu | hu
+    · rw [(aaResolve_eq_none s reached).2 hu]; rfl
+    · rw [(aaResolve_eq_none s entry).2 hu]
+      cases aaResolve s reached <;> rfl
+
+namespace TG
+
+theorem addAttackerObj_eq (s : St) (a : Nat) (id : Option Int) (e r : List Int) :
+    addAttackerObj s a id e r =
+      if dget s.attIdx (s.aobj a).id = some a then .error .valueError else
+      if (dget s.attIdx (id.getD s.nextAtt)).isSome then .error .valueError else
+      if !(r.all (fun i => (getNodeById s i).isSome) && e.all (fun i => (getNodeById s i).isSome)) then
+        .error .attackGraphException else
+      let s0 : St := { s with aobj := fun x => if x = a then { s.aobj a with id := id.getD s.nextAtt } else s.aobj x
+                              nextAtt := max (id.getD s.nextAtt + 1) s.nextAtt }
+      let s2 := e.foldl (aaEntry a) (r.foldl (aaReach a) s0)
+      .ok (withAtt s2 (s2.attackers ++ [a]) (dset s2.attIdx (id.getD s.nextAtt) a)) := rfl
+
+theorem attIsPart_abs (s : H) (a : ARef) (nf af : Nat) (hid : (s.a a).id.isSome = true) :
+    (attIsPart s a = true) ↔ dget (absS s nf af).attIdx ((absS s nf af).aobj a).id = some a := by
+  obtain ⟨k, hk⟩ := Option.isSome_iff_exists.1 hid
+  rw [attIsPart_iff]
+  show _ ↔ dget s._id_to_attacker ((s.a a).id.getD 0) = some a
+  rw [hk, ← dictGet_eq_dget]
+  constructor
+  · rintro ⟨k', h1, h2⟩; cases h1; exact h2
+  · intro h; exact ⟨k, rfl, h⟩
+
+theorem absS_aaS1_obj (s : H) (a : ARef) (k : Int) (nf af : Nat) :
+    absS (aaS1 s a k) nf af =
+      { absS s nf af with aobj := fun x => if x = a then { absA (s.a a) with id := k } else absA (s.a x)
+                          nextAtt := max (k + 1) s.next_attacker_id } := by
+  have ha : ∀ x, (aaS1 s a k).a x = if x = a then { s.a a with id := some k } else s.a x := fun _ => rfl
+  unfold absS
+  simp only
+  congr 1
+  · funext x
+    rw [ha]
+    by_cases hx : x = a
+    · rw [if_pos hx, if_pos hx]; rfl
+    · rw [if_neg hx, if_neg hx]
+  · show max (optIntGet ((aaS0 s a k).a a).id + 1) s.next_attacker_id = _
+    have : ((aaS0 s a k).a a).id = some k := by
+      show (if a = a then _ else _ : PyAttacker).id = _
       rw [if_pos rfl]
-    have : absS (aaFin a st2.1) nf (a + 1) =
-        withAtt (absS st2.1 nf (a + 1)) ((absS st2.1 nf (a + 1)).attackers ++ [a])
-          (dset (absS st2.1 nf (a + 1)).attIdx ((absS st2.1 nf (a + 1)).aobj a).id a) := by
-      unfold aaFin; rw [dictSet_eq_dset]; rfl
-    rw [this, t2, hid]
-    rfl
+    rw [this]; rfl
+
+/-- the abstraction of the heap after a successful `add_attacker` on an attacker object that exists already -/
+theorem absS_aaApply_obj (s : H) (a : ARef) (k : Int) (entry reached : List Int) (rn en : List NRef) (nf af : Nat)
+    (hr : aaResolve s reached = some rn) (he : aaResolve s entry = some en) :
+    absS (aaApply s a k rn en) nf af =
+      (let s2 := entry.foldl (aaEntry a) (reached.foldl (aaReach a) (absS (aaS1 s a k) nf af))
+       withAtt s2 (s2.attackers ++ [a]) (dset s2.attIdx k a)) := by
+  have h0 : (absS (aaS1 s a k) nf af).idIdx = s._id_to_node := rfl
+  have e1 := foldl_aaReach_resolve a s reached rn hr _ h0
+  have h1 : (reached.foldl (aaReach a) (absS (aaS1 s a k) nf af)).idIdx = s._id_to_node :=
+    foldl_inv (fun t : St => t.idIdx = s._id_to_node) _ _ _ (fun t i _ ht => by rw [(aaReach_frame a t i).idIdx, ht]) h0
+  have e2 := foldl_aaEntry_resolve a s entry en he _ h1
+  have hid : ((List.foldl (aaEntry a) (List.foldl (aaReach a) (absS (aaS1 s a k) nf af) reached) entry).aobj a).id = k := by
+    refine foldl_inv (fun t : St => (t.aobj a).id = k) _ _ _ (fun t i _ ht => by rw [aaEntry_aid, ht]) ?_
+    refine foldl_inv (fun t : St => (t.aobj a).id = k) _ _ _ (fun t i _ ht => by rw [aaReach_aid, ht]) ?_
+    show (absA (if a = a then _ else _ : PyAttacker)).id = _
+    rw [if_pos rfl]; rfl
+  have habs : absS (en.foldl (aaPush a) (rn.foldl (aaComp a) (aaS1 s a k))) nf af =
+      entry.foldl (aaEntry a) (reached.foldl (aaReach a) (absS (aaS1 s a k) nf af)) := by
+    rw [absS_foldl_aaPush, absS_foldl_aaComp, e2, e1]
+  have : ∀ t : H, absS (aaFin a t) nf af =
+      withAtt (absS t nf af) ((absS t nf af).attackers ++ [a]) (dset (absS t nf af).attIdx ((absS t nf af).aobj a).id a) := by
+    intro t; unfold aaFin; rw [dictSet_eq_dset]; rfl
+  unfold aaApply
+  rw [this, habs, hid]
+
+end TG
+/-- `add_attacker(attacker, ..)` for an attacker object that has been given an id before (e.g. the object handed to
+`add_attacker` a second time) is `AGS.addAttackerObj`: the same calls are rejected, with the same kind of exception,
+the others have the same effect -/
+theorem add_attacker_obj_tie (s : H) (a : ARef) (aid : Option Int) (entry reached : List Int) (nf af : Nat)
+    (hid : (s.a a).id.isSome = true) :
+    (∀ s', graph_add_attacker s a aid entry reached = .ok s' →
+      addAttackerObj (absS s nf af) a aid entry reached = .ok (absS s' nf af)) ∧
+    (graph_add_attacker s a aid entry reached = .error .valueError →
+      addAttackerObj (absS s nf af) a aid entry reached = .error .valueError) ∧
+    (graph_add_attacker s a aid entry reached = .error .attackGraphException →
+      addAttackerObj (absS s nf af) a aid entry reached = .error .attackGraphException) ∧
+    (∀ e, graph_add_attacker s a aid entry reached = .error e → e = .valueError ∨ e = .attackGraphException) := by
+  have hp := attIsPart_abs s a nf af hid
+  have hk : aid.getD (absS s nf af).nextAtt = aaKey s aid := (aaKey_eq s aid).symm
+  rw [graph_add_attacker_eq, addAttackerObj_eq, hk, ← aaResolve_all, ← aaResolve_all]
+  by_cases h1 : attIsPart s a = true
+  · rw [if_pos h1, if_pos (hp.1 h1)]
+    exact ⟨fun _ h => (by cases h), fun _ => rfl, fun h => (by cases h), fun e h => (by cases h; exact Or.inl rfl)⟩
+  rw [if_neg h1, if_neg (fun h => h1 (hp.2 h))]
+  by_cases h2 : dictIn s._id_to_attacker (aaKey s aid) = true
+  · rw [if_pos h2, if_pos (by rw [← dictIn_eq_dget]; exact h2)]
+    exact ⟨fun _ h => (by cases h), fun _ => rfl, fun h => (by cases h), fun e h => (by cases h; exact Or.inl rfl)⟩
+  rw [if_neg h2, if_neg (by rw [← dictIn_eq_dget]; exact h2)]
+  cases hr : aaResolve s reached with
+  | none =>
+    exact ⟨fun _ h => (by cases h), fun h => (by cases h), fun _ => rfl, fun e h => (by cases h; exact Or.inr rfl)⟩
+  | some rn =>
+    cases he : aaResolve s entry with
+    | none =>
+      exact ⟨fun _ h => (by cases h), fun h => (by cases h), fun _ => rfl, fun e h => (by cases h; exact Or.inr rfl)⟩
+    | some en =>
+      refine ⟨fun s' h => ?_, fun h => (by cases h), fun h => (by cases h), fun e h => (by cases h)⟩
+      cases h
+      rw [absS_aaApply_obj s a _ entry reached rn en nf af hr he, absS_aaS1_obj]
+      rfl
+
+theorem attIsPart_fresh (s : H) (a : ARef) (nf : Nat) (hc : Consistent (absS s nf a)) : attIsPart s a = false := by
+  cases h : attIsPart s a with
+  | false => rfl
+  | true =>
+    obtain ⟨k, _, hk⟩ := (attIsPart_iff s a).1 h
+    rw [dictGet_eq_dget] at hk
+    have hm : a ∈ s.attackers := ((hc.attIdx.id_exact k a).1 hk).1
+    exact absurd (hc.attIdx.fresh a hm) (Nat.lt_irrefl _)
+
+theorem attIsPart_member (s : H) (a : ARef) (nf af : Nat) (hc : Consistent (absS s nf af))
+    (hm : a ∈ s.attackers) (hid : (s.a a).id.isSome = true) : attIsPart s a = true := by
+  obtain ⟨k, hk⟩ := Option.isSome_iff_exists.1 hid
+  refine (attIsPart_iff s a).2 ⟨k, hk, ?_⟩
+  rw [dictGet_eq_dget]
+  refine (hc.attIdx.id_exact k a).2 ⟨hm, ?_⟩
+  show (s.a a).id.getD 0 = k
+  rw [hk]; rfl
+
+/-- an attacker object that is already part of the graph is rejected, whatever else is passed -/
+theorem add_attacker_rejects_part (s : H) (a : ARef) (aid : Option Int) (entry reached : List Int)
+    (h : attIsPart s a = true) : graph_add_attacker s a aid entry reached = .error .valueError := by
+  rw [graph_add_attacker_eq, if_pos h]
+
 namespace TG
 
 /-! ## pruning (`apriori.py`) -/
